@@ -78,7 +78,8 @@ Print Assumptions C08_private.
    the mutators earlier (MutateArg), invalidate_cache_for_component (Invalidate) and writes through live references
    to components (get_components(return_copy=False), a kept get_component(.., return_copy=False), the description
    of add_component(.., insert_copy=False)) under the discipline [ok_hist]: the write is followed at once by
-   invalidate_cache_for_component of that component.  forallb op_ok ops = true implies ok_hist ops = true
+   invalidate_cache_for_component of that component, or (round 5) by another call that commits that component
+   (Model.commits: a mutator of the component, e.g. update_component handed the edited live definition).  forallb op_ok ops = true implies ok_hist ops = true
    (op_ok_ok_hist), so these generalise C08_coherent and C08_fresh. *)
 Theorem C08_coherent_from : forall (dflt : jv) (st0 : state) (ops : list op),
   (forall k v, In (k, v) (s_cache st0) ->
@@ -144,6 +145,44 @@ Theorem C08_readonly_private : forall (dflt : jv) (st : state) (pre post : list 
 Proof. intros. exact (history_readonly lit_matches dflt st pre post call d). Qed.
 Print Assumptions C08_readonly_private.
 
+(* ARGUMENT IDENTITY (round 5).  A mutator may be handed an object that IS live state of the description (obtained
+   through a return_copy=False accessor) or shares sub-objects with it.  The operations of the model take values: the
+   call means the argument's value at the time of the call ([live_value]; the harness hands the real mutators the
+   live objects themselves, tells the model these values, and compares with the same call made with an independent
+   copy).  For update_component((s, n), X) with X the live definition of (s, n) itself - "hand the definition back" -
+   that value is the one the description already holds: the call is well-formed, the description stays exactly as it
+   is, and the labels of the component (and nothing else but labels the pattern also matches) leave the cache. *)
+Theorem C08_hand_back : forall (dflt : jv) (st : state) (s : Z) (n : string) (c : jv),
+  live_value (s_doc st) s n [] = Some c ->
+  op_ok (ReplaceComp s n c) = true /\
+  step lit_matches dflt st (ReplaceComp s n c)
+  = ({| s_doc := s_doc st; s_cache := filter (fun kv => negb (lit_matches s n (fst kv))) (s_cache st) |}, ODone).
+Proof.
+  intros dflt st s n c H. unfold live_value in H. destruct (find_comp (s_doc st) s n) as [c0|] eqn:F; [|discriminate].
+  cbn in H. injection H as <-. exact (hand_back lit_matches dflt st s n c0 F).
+Qed.
+Print Assumptions C08_hand_back.
+
+(* "Edit the live definition in place, then commit": a write through a live reference to component (s, n) followed at
+   once by ANY call that commits (s, n) - invalidate_cache_for_component((s, n)), or a mutator of that component:
+   update_component (typically handed the edited live definition itself, C08_hand_back), set/remove option or
+   variable, delete_component - is inside the discipline [ok_hist] (Model.commits), so C08_coherent_from /
+   C08_fresh_from / C08_fresh_real cover it.  Spelled out for one such pair: every query after it answers what the
+   description holds after the write and the commit. *)
+Theorem C08_commit : forall (dflt : jv) (st0 : state) (s : Z) (n : string) (r : list string) (x : jv) (o : op)
+                            (post : list op) (p : string) (s' : Z) (n' : string),
+  (forall k v, In (k, v) (s_cache st0) ->
+     exists p s n, k = key p s n /\ plat_ok p = true /\ qresolve dflt (s_doc st0) p s n = QOk v) ->
+  route_ok r = true -> commits s n o = true -> plat_ok p = true ->
+  nth_error (snd (run lit_matches dflt st0 ([LiveWrite s n r x; o] ++ Query p s' n' :: post))) 2
+  = Some (ORes (qresolve dflt (doc_after (s_doc st0) [LiveWrite s n r x; o]) p s' n')).
+Proof.
+  intros dflt st0 s n r x o post p s' n' H0 Hr Hc Hp.
+  apply (C08_fresh_from dflt st0 [LiveWrite s n r x; o] post p s' n' H0); [|exact Hp].
+  cbn [ok_hist]. rewrite Hr, Hc. reflexivity.
+Qed.
+Print Assumptions C08_commit.
+
 (* The table of built-in defaults is not an unknown: V.Cache.Generated.real_dflt is printed from
    FlowIR.default_component_structure() of the tree under test on every run (harness/c08.py, before the proofs are
    built) and is the table the correspondence run evaluates the model with.  Freshness for that table. *)
@@ -200,4 +239,29 @@ Example C08_nonvacuous_from :
    nth_error (snd r) 5 <> nth_error (snd (run lit_matches (JDict []) {| s_doc := ex_doc; s_cache := [] |} ex_ops)) 3) /\
   (exists v, nth_error (snd (run lit_matches real_dflt {| s_doc := ex_doc; s_cache := [] |} (ex_ops ++ ex_ops2))) 9
              = Some (ORes (QOk v)) /\ get_path ["command"; "arguments"] v = Some (JStr "live 2")).
+Proof. vm_compute. repeat split; try congruence. eexists. split; reflexivity. Qed.
+
+(* Non-vacuity of C08_hand_back / C08_commit: from the state the first history ends in (entries of bar and foo), the
+   caller edits the live definition of foo in place and hands that very definition back to update_component (its
+   value at the time of the call: live_value after the write), with NO invalidate_cache_for_component in between.
+   The pair is inside ok_hist (not inside forallb op_ok), the description is the one the write produced, the entry
+   of foo is gone and that of bar survives, and the next query answers the edited definition. *)
+Definition ex_write : op := LiveWrite 0 "foo" ["command"; "arguments"] (JStr "commit %(x)s").
+
+Example C08_nonvacuous_commit :
+  let st0 := fst (run lit_matches (JDict []) {| s_doc := ex_doc; s_cache := [] |} ex_ops) in
+  match live_value (doc_after (s_doc st0) [ex_write]) 0 "foo" [] with
+  | None => False
+  | Some c =>
+      let pair := [ex_write; ReplaceComp 0 "foo" c] in
+      get_path ["command"; "arguments"] c = Some (JStr "commit %(x)s") /\
+      ok_hist pair = true /\ forallb op_ok pair = false /\ commits 0 "foo" (ReplaceComp 0 "foo" c) = true /\
+      doc_after (s_doc st0) pair = doc_after (s_doc st0) [ex_write] /\
+      map fst (s_cache st0) = ["component:default:stage1:bar"; "component:p:stage0:foo"] /\
+      map fst (s_cache (fst (run lit_matches (JDict []) st0 pair))) = ["component:default:stage1:bar"] /\
+      (let r := run lit_matches (JDict []) st0 (pair ++ [Query "p" 0 "foo"]) in
+       nth_error (snd r) 2 = Some (ORes (qresolve (JDict []) (doc_after (s_doc st0) pair) "p" 0 "foo")) /\
+       exists v, nth_error (snd r) 2 = Some (ORes (QOk v)) /\
+                 get_path ["command"; "arguments"] v = Some (JStr "commit 2"))
+  end.
 Proof. vm_compute. repeat split; try congruence. eexists. split; reflexivity. Qed.
